@@ -189,8 +189,8 @@ def make_kernel(kernel, d, bkind, beta, nu=None, wraps=1):
             ratio = ratio * (th_f / th_r) ** int(kshape)
         else:
             ctx.check("normal-density-of-the-witness-equals-forward", eq(nz(zc), nz(z)))
-        amin = ratio if bool(ratio <= 1) else SymReal.const(1)
-        ctx.check("acceptance-probability==min(1,joint-density-ratio)", eq(alpha, amin))
+        ctx.check("acceptance-probability==min(1,joint-density-ratio)",
+                  z3.Or(z3.And(le(ratio, 1), eq(alpha, ratio)), z3.And(le(1, ratio), eq(alpha, 1))))
         ctx.check("accept-iff-urand<alpha", ((r1 < alpha).z) == z3.BoolVal(bool(accepted)))
         # unit Jacobian: the forward map (u,z)->(u',z') is affine; for d=1 decide |det| == 1 through finite differences on the real code
         return None
@@ -206,7 +206,7 @@ def make_kernel(kernel, d, bkind, beta, nu=None, wraps=1):
                              "symbolic mode (mu, Cholesky factor), all draws symbolic; a second proposal draw is reported, not followed; wrap count |k| <= " + str(wraps),
                       stubs=["np.random.gamma/randn/rand -> symbolic draws with recorded call parameters", "np.log/np.exp -> exact log-domain algebra",
                              "_adapt_sigma -> no-op, _initialize_sigmas -> symbolic sigma", "np.sqrt -> fresh r>=0 with r*r==x (cached per radicand)"],
-                      theory="QF_NRA", timeout_ms=30000, max_paths=4000, allow_domain="division by zero paths are outside the declared positive domains",
+                      theory="QF_NRA", timeout_ms=8000, max_paths=4000, allow_domain="division by zero paths are outside the declared positive domains",
                       allow_bound=(f"unwrapped proposals with integer part outside [-{wraps},{wraps}] are cut" if bkind in ("periodic", "reflective") else None))
 
 
@@ -267,6 +267,8 @@ def replay_kernel(kernel, d, bkind, beta, nu, m, label):
                 "what": f"{kernel}: from u=0.02 next to a hard wall {redraws}/200 proposals were drawn more than once (redraw until inside); the "
                         f"proposal density is renormalised by P(inside|u) which the acceptance ratio ignores"
                         + (f"; exact 1-D residual of detailed balance at (0.05, 0.6) for pi(u)=1+u: {res:.4f}" if res is not None else "")}
+    if bkind in ("interior", "hard") and d == 1 and not label.startswith("out-of-bounds"):
+        return replay_interior(kernel, beta, nu, m, label)
     # wrapped moves of tpCN: compare the real acceptance factor with the exact density ratio of the (wrapped) move
     try:
         vals = {k: float(v) for k, v in m.items() if not k.startswith("obs:") and not isinstance(v, (bool, str))}
@@ -311,9 +313,83 @@ def replay_kernel(kernel, d, bkind, beta, nu, m, label):
                     f"{float(up[0]):.4f}; the code's log acceptance factor {fac:.6f} differs from the log ratio of joint densities {exact:.6f}"}
 
 
+def replay_interior(kernel, beta, nu, m, label):
+    """float replay of the involution / density-ratio obligations at the solver's point (d=1, no wrapping)."""
+    from vf.engine.util import scripted_random
+    vals = {k: float(v) for k, v in m.items() if not k.startswith("obs:") and not isinstance(v, (bool, str))}
+    try:
+        u0, mu0, l00, sg, z0 = vals["u0"], vals["mu0_0"], vals["L0_00"], vals["sigma"], vals["z0"]
+        g = vals.get("g", 1.0)
+        D = Fraction(beta).limit_denominator(64).denominator
+        l_cur, l_prop = D * math.log(vals["expatom_l_cur"]), D * math.log(vals["expatom_l_prop"])
+        urand = vals.get("urand", 0.5)
+    except Exception as e:
+        return {"reproduced": False, "what": f"model incomplete: {e}"}
+    ms = ModeStatistics(np.array([[mu0]]), np.array([[[l00 * l00]]]), np.array([nu]))
+    k = (1 + nu) / 2
+    gam = []
+
+    def gamma_spy(shape=None, scale=1.0, size=None):
+        gam.append((float(shape), float(scale)))
+        return g
+
+    def step(start, l_start, l_new, zdraw):
+        cls = mcmc.TPCNRunner if kernel == "tpcn" else mcmc.RWMRunner
+        seen = []
+
+        def pt(q):
+            seen.append(np.array(q, dtype=float))
+            return q
+        with scripted_random(gamma=gamma_spy, randn=lambda *a: np.array([zdraw]), rand=lambda *a: np.array([urand])), \
+                patched_attr(cls, _initialize_sigmas=lambda self: np.array([sg]), _adapt_sigma=lambda self, c, a_: None):
+            out = mcmc.parallel_mcmc(u=np.array([[start]]), x=np.array([[start]]), logl=np.array([l_start]), blobs=None,
+                                     assignments=np.zeros(1, dtype=int), beta=beta, mode_stats=ms,
+                                     log_likelihood=lambda x: (np.array([l_new]), None), prior_transform=pt, n_steps=1, n_max=1,
+                                     sample=kernel, verbose=False)
+        return float(seen[0][0]), float(out[5]), float(out[0][0, 0])
+    up, alpha, unew = step(u0, l_cur, l_prop, z0)
+    if up == u0 and alpha == 0.0:
+        return {"reproduced": False, "what": "the model's proposal is outside the cube for the float run"}
+    a = math.sqrt(1 - sg * sg)
+    if kernel == "tpcn":
+        zrev = [sg * math.sqrt(g) * (u0 - mu0) / l00 - a * z0]
+    else:
+        zrev = [-z0, z0]
+    best = None
+    for zr in zrev:
+        upp, _, _ = step(up, l_prop, l_cur, zr)
+        if best is None or abs(upp - u0) < abs(best[0] - u0):
+            best = (upp, zr)
+    upp, zr = best
+    landed = abs(upp - u0) < 1e-9
+    log_ratio = beta * (l_prop - l_cur)
+    energy = 0.0
+    shape_ok = True
+    if kernel == "tpcn":
+        (sh_f, th_f), (sh_r, th_r) = gam[0], gam[-1]
+        shape_ok = abs(sh_f - k) < 1e-12 and abs(sh_r - k) < 1e-12
+        energy = g * (1 / th_r - 1 / th_f) + (zr * zr - z0 * z0) / 2
+        log_ratio += k * math.log(th_f / th_r) - energy
+    else:
+        energy = (zr * zr - z0 * z0) / 2
+    exact = min(1.0, math.exp(log_ratio))
+    bad = {"reverse-move-with-the-witness-draws-returns-to-the-start(involution)": not landed,
+           "gamma-shape-is-(d+nu)/2-in-both-directions": not shape_ok,
+           "energy-identity(gamma*normal densities balance)": abs(energy) > 1e-9,
+           "normal-density-of-the-witness-equals-forward": abs(energy) > 1e-9,
+           "acceptance-probability==min(1,joint-density-ratio)": abs(alpha - exact) > 1e-9,
+           "accept-iff-urand<alpha": (urand < alpha) != (unew == up),
+           "evaluated-proposals-are-inside-the-cube": not (0 <= up <= 1)}.get(label, False)
+    return {"reproduced": bool(bad), "signature": f"{kernel}:kernel-arithmetic:{label.split('(')[0]}",
+            "payload": {"u": u0, "mu": mu0, "scale": l00, "sigma": sg, "gamma_draw": g, "normal_draw": z0, "proposal": up, "reverse_lands_on": upp,
+                        "gamma_calls(shape,scale)": gam[:1] + gam[-1:], "energy": energy, "code_alpha": alpha, "exact_alpha": exact},
+            "what": f"{kernel} step from u={u0:.6g} (mean {mu0:.6g}, scale {l00:.6g}, sigma {sg:.6g}, gamma draw {g:.6g}, normal draw {z0:.6g}): proposal {up:.6g}, "
+                    f"reverse move lands on {upp:.6g}, energy {energy:.3g}, acceptance {alpha:.6g} vs min(1, joint density ratio) {exact:.6g} ({label})"}
+
+
 def obligations(tier):
     H = Fraction(1, 2)
-    obs = [make_kernel("tpcn", 1, "interior", 1), make_kernel("tpcn", 1, "hard", H), make_kernel("rwm", 1, "hard", 1),
+    obs = [make_kernel("tpcn", 1, "interior", 1), make_kernel("tpcn", 1, "interior", H), make_kernel("tpcn", 1, "hard", H), make_kernel("rwm", 1, "hard", 1),
            make_kernel("rwm", 1, "periodic", H), make_kernel("rwm", 1, "reflective", 1), make_kernel("tpcn", 1, "periodic", 1)]
     if tier == "thorough":
         obs += [make_kernel("tpcn", 1, "interior", H, nu=5.0), make_kernel("tpcn", 1, "reflective", 1), make_kernel("tpcn", 2, "interior", 1),
